@@ -420,3 +420,47 @@ def same_view(a, b):
     """Equal abstract views (values, dtype, name, row flag)."""
     return (tuple(a._underlying) == tuple(b._underlying) and a._dtype == b._dtype
             and a._name == b._name and a._display_as_row == b._display_as_row)
+
+
+# ------------------------------------------------------------------ names
+def sanitize_name(name):
+    """The accessor form of a stored name (natively serif's own function, whose output language
+    is decided by pylang; symbolically an uninterpreted function into None | str)."""
+    from serif.naming import _sanitize_user_name
+    return _sanitize_user_name(name)
+
+
+# ------------------------------------------------------------------ C02 / C03 concatenation (<<)
+def concat_step(st, v):
+    d = promote_spec(DataType(st[0], st[1]), v)
+    return (d.kind, d.nullable)
+
+
+def concat_dtype_state(dtype, values, k):
+    return fold(concat_step, (dtype.kind, dtype.nullable), values, k)
+
+
+def concat_dtype_spec(dtype, values):
+    """dtype of existing values followed by `values`: the left dtype promoted with every appended
+    value (C03: never narrower than either side); an untyped empty left side infers."""
+    if dtype is None:
+        if len(values) == 0:
+            return None
+        return infer_spec(values)
+    st = concat_dtype_state(dtype, values, len(values))
+    return DataType(st[0], st[1])
+
+
+def appended_values(other):
+    """What `v << other` appends: the elements of a vector / plain sequence, or the one scalar."""
+    if isinstance(other, Vector):
+        return other._underlying
+    if isinstance(other, list):
+        return other
+    return [other]
+
+
+def lshift_spec(self, other):
+    """C02: << appends (rows); existing elements untouched, every appended value lands."""
+    app = appended_values(other)
+    return vec(list(self._underlying) + list(app), concat_dtype_spec(self._dtype, app), None, False)
